@@ -313,7 +313,19 @@ class Exec:
         ts = [t for _, t in vals]
         if all(is_bool(v) for v, _ in vals):
             return AND(*ts) if isinstance(e.op, ast.And) else OR(*ts)
-        # python returns an operand; only its truth value is modelled
+        # python returns an OPERAND (`seed or 42` is seed unless seed is falsy): for scalar operands the value is modelled exactly
+        if all(is_scalar(v) for v, _ in vals):
+            res = vals[-1][0]
+            for v, t in reversed(vals[:-1]):
+                take = t if isinstance(e.op, ast.Or) else NOT(t)
+                res = v if take is True else (res if take is False else ITE(take, v, res))
+            return res
+        if all(isinstance(t, bool) for t in ts):
+            for v, t in vals:
+                if t is (isinstance(e.op, ast.Or)):
+                    return v
+            return vals[-1][0]
+        # containers / None with a symbolic truth value: only the truth value is modelled (sound where the result is used as a condition)
         return AND(*ts) if isinstance(e.op, ast.And) else OR(*ts)
 
     def truth(self, v, st):
@@ -757,7 +769,8 @@ class Exec:
                 return st.alloc(SList(n, lambda kk, val=val, k=k: SArr(tuple(subst(s, [(k, kk)]) for s in val.shape),
                                                                        lambda *ix: subst(val.get(*ix), [(k, kk)]), val.kind), val.type()))
             if isinstance(val, SFun) and val.kind == 'uf':
-                return st.alloc(SList(n, lambda kk, val=val, k=k: SFun('uf', role=val.role, index=subst(val.index, [(k, kk)])), TOpaque('callable')))
+                extra = {'copied': True} if getattr(val, 'copied', False) else {}
+                return st.alloc(SList(n, lambda kk, val=val, k=k: SFun('uf', role=val.role, index=subst(val.index, [(k, kk)]), **extra), TOpaque('callable')))
             raise Unsupported('list comprehension producing %r' % (type(val),))
         raise Unsupported('list comprehension with filter / several generators')
 
